@@ -16,9 +16,14 @@ Static clauses decided (necessary conditions of C01; the SQL/Python equivalence 
            translators, every default operator of Monad, the unknown-symbol branch of SQLBuilder.__call__, the JSON_*/ARRAY_*
            defaults of the base builder) end in throw/raise on every path.
  SLICE     string slicing: explicit versus omitted bounds (shared with C25).
+ INCLUDED  the clauses of C03 (decompiled tree), C04 (outer-scope expressions), C24 (query methods), C25 (string slicing) and C29 (JSON and
+           array operations) are necessary conditions of C01 as well and are evaluated under C01 too (rule ids keep their own prefix).
  FIXED     value-dependent translation is recorded on the root translator (shared with C05), otherwise a cached translation
            built for one parameter value answers the same query for another value.
 """
+# C01 is the umbrella ("the rows Pony returns equal the result of evaluating the same expression in Python"): the clauses decided for the
+# narrower query properties are necessary conditions of C01 too and are evaluated here as well (their findings are reported under C01)
+INCLUDES = ('C03', 'C04', 'C24', 'C25', 'C29')
 NOT_DECIDED = "SQL/Python equivalence of each translated operator, DISTINCT inference, row decoding: need execution against the engines"
 
 ST = 'pony.orm.sqltranslation'
